@@ -1144,7 +1144,7 @@ class C09(core.Check):
 
     # ------------------------------------------------------------------ generators
     def gen_cases(self, rng: random.Random, tier: str) -> List[dict]:
-        mult = 1 if tier == "quick" else 8
+        mult = 1 if tier == "quick" else 24
         cases: List[dict] = []
         for fam, n in FAMILIES_QUICK:
             for _ in range(n * mult):
